@@ -3699,17 +3699,6 @@ const (
 
 // Format formats the node.
 func (node *Order) Format(buf *TrackedBuffer) {
-	if node, ok := node.Expr.(*NullVal); ok {
-		buf.Myprintf("%v", node)
-		return
-	}
-	if node, ok := node.Expr.(*FuncExpr); ok {
-		if node.Name.Lowered() == "rand" {
-			buf.Myprintf("%v", node)
-			return
-		}
-	}
-
 	buf.Myprintf("%v %s", node.Expr, node.Direction)
 }
 
